@@ -34,7 +34,7 @@ def replay():
         pts = np.concatenate([xs, np.exp(rng.uniform(np.log(xs[0]), 0, size=20))])
         for x in pts:
             vals = np.array([b.evaluate_x(x) for b in disp])
-            if abs(vals.sum() - 1) > 1e-7: out.append(f"n={len(xs)} d={d} log={log}: sum of basis functions at x={x:.3e} is {vals.sum()}")
+            if abs(vals.sum() - 1) > 5e-6: out.append(f"n={len(xs)} d={d} log={log}: sum of basis functions at x={x:.3e} is {vals.sum()}")
             for k in range(d + 1):
                 got = sum(v * f(xj) ** k for v, xj in zip(vals, xs))
                 if abs(got - f(x) ** k) > 1e-6 * max(1, abs(f(x) ** k)): out.append(f"n={len(xs)} d={d} log={log}: monomial degree {k} not reproduced at x={x:.3e}")
